@@ -58,6 +58,13 @@ var c19Sources = []c19Src{
 	{name: "p2-addpath", addr: netip.MustParseAddr("10.0.0.3"), id: netip.MustParseAddr("3.3.3.3"), as: 4200000001, peer: true, addPath: true, as4: true},
 	{name: "p3-v6", addr: netip.MustParseAddr("2001:db8::3"), id: netip.MustParseAddr("4.4.4.4"), as: 65003, peer: true, as4: true},
 	{name: "ghost", addr: netip.MustParseAddr("10.0.0.9"), id: netip.MustParseAddr("9.9.9.9"), as: 65009},
+	// near-duplicates: MRT has no room for the zone, so these two differ only by BGP id in the dump
+	{name: "ll-eth0", addr: netip.MustParseAddr("fe80::1%eth0"), id: netip.MustParseAddr("5.5.5.5"), as: 65005},
+	{name: "ll-eth1", addr: netip.MustParseAddr("fe80::1%eth1"), id: netip.MustParseAddr("6.6.6.6"), as: 65005},
+	// same BGP id and AS as p1, other address; the IPv4-mapped form of p1's address; same AS as the ghost
+	{name: "p1-twin-id", addr: netip.MustParseAddr("10.0.0.4"), id: netip.MustParseAddr("2.2.2.2"), as: 65002},
+	{name: "p1-mapped", addr: netip.MustParseAddr("::ffff:10.0.0.2"), id: netip.MustParseAddr("7.7.7.7"), as: 65002},
+	{name: "ghost-same-as", addr: netip.MustParseAddr("10.0.0.10"), id: netip.MustParseAddr("9.9.9.10"), as: 65009},
 }
 
 func c19SrvHex(b []byte) string {
@@ -143,11 +150,21 @@ type c19Want struct {
 	path           *table.Path
 }
 
+// the peer a RIB entry is attributed to, as far as MRT / BMP can express it: address without
+// zone, BGP id and AS
+func (w c19Want) who() string {
+	id := w.id
+	if !id.IsValid() {
+		id = netip.IPv4Unspecified()
+	}
+	return fmt.Sprintf("%s id %s as %d", w.peer.WithZone(""), id, w.as)
+}
+
 func (w c19Want) key(withPathID bool) string {
 	if withPathID {
-		return fmt.Sprintf("%s %s from %s pathid %d ts %d attrs %s", w.family, w.prefix, w.peer, w.remoteID, w.ts, w.attrs)
+		return fmt.Sprintf("%s %s from %s pathid %d ts %d attrs %s", w.family, w.prefix, w.who(), w.remoteID, w.ts, w.attrs)
 	}
-	return fmt.Sprintf("%s %s from %s ts %d attrs %s", w.family, w.prefix, w.peer, w.ts, w.attrs)
+	return fmt.Sprintf("%s %s from %s ts %d attrs %s", w.family, w.prefix, w.who(), w.ts, w.attrs)
 }
 
 // the content of the global RIB, read without any of the emitters
@@ -160,10 +177,11 @@ func c19RibContent(s *BgpServer) []c19Want {
 			for _, p := range dst.GetKnownPathList(table.GLOBAL_RIB_NAME, 0) {
 				src := p.GetSource()
 				peer := src.Address
+				id, as := src.ID, src.AS
 				if !peer.IsValid() || p.IsLocal() {
-					peer = netip.IPv4Unspecified()
+					peer, id, as = netip.IPv4Unspecified(), netip.IPv4Unspecified(), 0
 				}
-				l = append(l, c19Want{family: family.String(), prefix: p.GetNlri().String(), peer: peer, id: src.ID, as: src.AS,
+				l = append(l, c19Want{family: family.String(), prefix: p.GetNlri().String(), peer: peer, id: id, as: as,
 					remoteID: p.RemoteID(), ts: uint32(p.GetTimestamp().Unix()), attrs: c19Attrs(p.GetPathAttrs()), path: p})
 			}
 		}
@@ -237,9 +255,12 @@ func c19Round(t *testing.T, o *vOut, r *vRand, round int) {
 		case 1:
 			srcs = []int{0}
 		case 2:
-			srcs = []int{1 + r.intn(4)}
+			srcs = []int{1 + r.intn(len(c19Sources)-1)}
 		case 3:
 			srcs = []int{2, 1, 4}
+			if r.chance(50) { // near-duplicate peers in one destination
+				srcs = [][]int{{5, 6}, {6, 5, 0}, {1, 7, 8}, {4, 9, 1}, {5, 6, 7, 8, 9}}[r.intn(5)]
+			}
 		default:
 			for j := range c19Sources {
 				if r.chance(50) {
@@ -399,7 +420,8 @@ func c19Round(t *testing.T, o *vOut, r *vRand, round int) {
 						o.fail("mrt-dump-peer-index-out-of-table", map[string]any{"index": e.PeerIndex, "peers": len(peers)})
 						continue
 					}
-					g := c19Want{family: fam.String(), prefix: b.Prefix.String(), peer: peers[e.PeerIndex].IpAddress, remoteID: e.PathIdentifier,
+					pe := peers[e.PeerIndex]
+					g := c19Want{family: fam.String(), prefix: b.Prefix.String(), peer: pe.IpAddress, id: pe.BgpId, as: pe.AS, remoteID: e.PathIdentifier,
 						ts: e.OriginatedTime, attrs: c19Attrs(e.PathAttributes)}
 					got[g.key(false)]++
 					if addPath {
@@ -455,23 +477,23 @@ func c19Round(t *testing.T, o *vOut, r *vRand, round int) {
 				break
 			}
 		}
-		// peer index table: address, BGP id and AS of every source
+		// peer index table: every source is there with its address, BGP id and AS, exactly once
+		seen := map[string]int{}
+		for _, p := range peers {
+			seen[c19Want{peer: p.IpAddress, id: p.BgpId, as: p.AS}.who()]++
+		}
 		for _, w := range want {
-			found := false
-			for _, p := range peers {
-				if p.IpAddress == w.peer {
-					found = true
-					wid, was := w.id, w.as
-					if w.path.IsLocal() {
-						wid, was = netip.IPv4Unspecified(), 0
-					}
-					if p.BgpId != wid || p.AS != was {
-						o.fail("mrt-dump-peer-differs", map[string]any{"peer": w.peer.String(), "rib_id": wid.String(), "rib_as": was, "dump_id": p.BgpId.String(), "dump_as": p.AS})
-					}
+			switch seen[w.who()] {
+			case 0:
+				var l []string
+				for k := range seen {
+					l = append(l, k)
 				}
-			}
-			if !found {
-				o.fail("mrt-dump-peer-missing", w.peer.String())
+				sort.Strings(l)
+				o.fail("mrt-dump-peer-missing", map[string]any{"source": w.who(), "zone": w.peer.Zone(), "peer_index_table": l})
+			case 1:
+			default:
+				o.fail("mrt-dump-peer-duplicated", w.who())
 			}
 		}
 		o.stat("dump_records", len(msgs))
@@ -764,7 +786,7 @@ func c19Round(t *testing.T, o *vOut, r *vRand, round int) {
 				detail["parsed_attrs"] = got
 				o.fail("bmp-route-attrs-differ", detail)
 			}
-			if ph.PeerAddress != wantPeer || ph.PeerAS != wantAS || ph.PeerBGPID != wantID || int64(ph.Timestamp) != e.w.path.GetTimestamp().Unix() {
+			if ph.PeerAddress != wantPeer.WithZone("") || ph.PeerAS != wantAS || ph.PeerBGPID != wantID || int64(ph.Timestamp) != e.w.path.GetTimestamp().Unix() {
 				detail["parsed_peer"] = fmt.Sprintf("%s %d %s %v", ph.PeerAddress, ph.PeerAS, ph.PeerBGPID, ph.Timestamp)
 				o.fail("bmp-route-peer-differs", detail)
 			}
